@@ -159,9 +159,32 @@ fn main() {
     let r1 = fresh(6, 100); let r2 = fresh(3, 100);
     let mut f = fresh(2, 100); f.extend(r1[2..6].iter().cloned()); f.extend(r2.iter().cloned()); f.extend(fresh(1, 100)); f.extend(r1[0..2].iter().cloned()); f.extend(r1[0..2].iter().cloned());
     cases.push(("remote runs".into(), f, vec![r1, r2]));
+    // 6. fragmentation history: >= 128 ranges of [3 fresh][1 repeated chunk] make the fragmentation prevention refuse one-chunk
+    //    matches, so repeated chunks are stored a second time; later the file replays pairs (P, Q) whose Q was stored twice
+    for local in [true, false] {
+        let a = fresh(420, 48);
+        let mut f = if local { a.clone() } else { vec![] };
+        for j in 0..200 {
+            f.extend(fresh(3, 48));
+            f.push(a[2 * j + 1].clone());
+        }
+        for j in 120..200 {
+            f.push(a[2 * j].clone());
+            f.push(a[2 * j + 1].clone());
+            f.extend(fresh(1, 48));
+        }
+        for j in 0..5 {
+            f.extend(a[400 + j..410].iter().cloned());
+        }
+        cases.push((format!("fragmented history, repeats {}", if local { "inside the pending xorb" } else { "of a stored xorb" }), f, if local { vec![] } else { vec![a] }));
+    }
     for (name, file, remote) in &cases {
         for blocks in [vec![usize::MAX], vec![1usize], vec![7, 1000]] {
-            if let Some(w) = run(name, file, &blocks, remote) {
+            let r = std::panic::catch_unwind(std::panic::AssertUnwindSafe(|| run(name, file, &blocks, remote))).unwrap_or_else(|e| {
+                let msg = e.downcast_ref::<String>().cloned().or_else(|| e.downcast_ref::<&str>().map(|s| s.to_string())).unwrap_or_default();
+                Some(format!("{name}: finalize panicked on a file of {} chunks fed in blocks {:?}: {msg}", file.len(), blocks))
+            });
+            if let Some(w) = r {
                 println!("WITNESS {w}");
                 std::process::exit(1);
             }
